@@ -734,3 +734,7 @@ func resumeImpossible(s flows.Session, maxResumes int) bool {
 	}
 	return node.Router() == nil || node.Router().Wait() == nil
 }
+
+func triggersRead(sa flows.SessionAssets, data []byte, missing assets.MissingCallback) (flows.Trigger, error) {
+	return triggers.ReadTrigger(sa, data, missing)
+}
